@@ -378,6 +378,13 @@ namespace hs
                 if (top > 2000)
                     top = 2000;
                 p.set("mbs_n", (long long)r.size_biased(1, r.chance(1, 3) ? top : (top < 300 ? top : 300)));
+                if (has(sut, ".small.") && r.chance(1, 2))
+                {
+                    // small-node pools are made of chunks of 255 nodes: counts that fill k chunks (almost) exactly
+                    auto n = 255 * r.range(1, 7);
+                    n -= r.below(4);
+                    p.set("mbs_n", (long long)(n > top ? top : n));
+                }
             }
             else
                 p.set("mbs_n", (long long)r.size_biased(1, 2000));
